@@ -14,7 +14,6 @@ import (
 	"io"
 	"sync"
 	"sync/atomic"
-	"time"
 
 	v1 "github.com/dapr/kit/schemes/enc/v1"
 )
@@ -88,19 +87,14 @@ func KitDecryptThen(src *Source, opts v1.DecryptOptions, after func()) (io.Reade
 	if after != nil {
 		after()
 	}
-	if err == nil && r != nil {
-		src.phase.Store(phWait)
-		if hdrReads < 0 || src.entered.Load() > hdrReads {
-			src.release() // the goroutine has already been here
-		}
-		select {
-		case <-src.sig:
-		case <-time.After(10 * time.Second): // machinery safety only; never an oracle
-			src.phase.Store(phFree)
-		}
-	} else {
-		src.phase.Store(phFree)
-	}
+	// (Until /repo commit 1b7747a readHeader handed out slices of a pooled
+	// buffer, and this function kept the section open until the goroutine
+	// Decrypt started had issued its first Read on src. Since readHeader
+	// copies, the section only needs to cover the synchronous part; waiting
+	// for a Read that a changed implementation may never issue - it may serve
+	// the rest from what it read ahead - would stall every other case.)
+	_ = hdrReads
+	src.phase.Store(phFree)
 	gate.Unlock()
 	return r, err
 }
@@ -199,9 +193,16 @@ type Source struct {
 	// data read (k = 1: before each), never twice in a row - what a
 	// non-blocking transport does now and then; no deviation script is needed.
 	EmptyEvery int
-	EmptyReads int       // how many such answers were given
-	Stream     io.Reader // when set, Reads are served by this reader (no script, no fault): for data too large to hold
-	Calls      int
+	EmptyReads int // how many such answers were given
+	// Stall: when the read position reaches StallAt (a Read never crosses it)
+	// the source answers (0, nil) StallN times in a row, then goes on - or,
+	// with StallFail, fails with the sticky fault error.
+	StallAt   int
+	StallN    int
+	StallFail bool
+	stalled   int
+	Stream    io.Reader // when set, Reads are served by this reader (no script, no fault): for data too large to hold
+	Calls     int
 
 	pos       int
 	dataReads int
@@ -249,7 +250,20 @@ func (s *Source) Read(p []byte) (int, error) {
 	if s.failed {
 		return 0, ferr
 	}
+	if s.StallN > 0 && s.pos == s.StallAt {
+		if s.stalled < s.StallN {
+			s.stalled++
+			return 0, nil
+		}
+		if s.StallFail {
+			s.failed = true
+			return 0, ferr
+		}
+	}
 	rem := len(s.Data) - s.pos
+	if s.StallN > 0 && s.pos < s.StallAt && s.StallAt-s.pos < rem {
+		rem = s.StallAt - s.pos // stop this Read at the stall point
+	}
 	if s.EmptyEvery > 0 && rem > 0 && len(p) > 0 {
 		if !s.justEmpty && s.dataReads%s.EmptyEvery == 0 {
 			s.justEmpty = true
